@@ -6,8 +6,24 @@
 // a variant that returns something else is recorded as a call of its own and judged like any other.
 #include "common.hpp"
 #include <cmath>
+#include <csignal>
+#include <unistd.h>
 
 namespace {
+
+// ---- monitored-call marker: a crash (SIGSEGV / SIGBUS / SIGFPE / SIGABRT, stack overflow included) while a library
+// call is in progress is reported on stderr as {"crash":...} with the lattice path and the call, exit code 3
+static const Path64* g_cur = nullptr; static const char* g_fn = ""; static int g_emb = 0; static std::string g_cfg;
+static void on_crash(int sig) {
+  if (g_cur) fprintf(stderr, "\n{\"crash\":%d,\"fn\":\"%s\",\"cfg\":\"%s\",\"emb\":%d,\"p\":%s}\n", sig, g_fn, g_cfg.c_str(), g_emb, jpath(*g_cur).c_str());
+  _exit(g_cur ? 3 : 4);
+}
+static void install_crash_handler() {
+  static char stack[1 << 16]; stack_t ss; ss.ss_sp = stack; ss.ss_size = sizeof stack; ss.ss_flags = 0; sigaltstack(&ss, nullptr);
+  struct sigaction sa; memset(&sa, 0, sizeof sa); sa.sa_handler = on_crash; sa.sa_flags = SA_ONSTACK; sigemptyset(&sa.sa_mask);
+  for (int s : {SIGSEGV, SIGBUS, SIGFPE, SIGABRT, SIGILL}) sigaction(s, &sa, nullptr);
+}
+struct Mon { Mon(const char* fn, const std::string& cfg) { g_fn = fn; g_cfg = cfg; } };
 
 struct Rat { long long n, d; };
 
@@ -64,6 +80,8 @@ static Ev call(const char* f) { Ev e(f); e.s = "{"; e.first = true; e.ks("f", f)
 static void do_path(std::ostream& os, long long id, const std::string& fam, const Path64& lat, const Emb& emb, const std::vector<Rat>& eps,
                     const std::vector<Rat>& mds, uint64_t seed, Stats& st, bool lite) {
   ++st.paths;
+  g_cur = &lat; g_emb = emb.id;
+  struct Clear { ~Clear() { g_cur = nullptr; } } clear_on_exit;
   const Path64 E = emb_path(emb, lat);
   const bool dbl = exact_in_double(E);
   const double m = (double)emb.m;
@@ -71,6 +89,7 @@ static void do_path(std::ostream& os, long long id, const std::string& fam, cons
   typedef std::vector<std::pair<std::string, std::pair<bool, Path64>>> Vars;
   // ---- TrimCollinear (closed, open) and its second application
   for (int open = 0; open < 2; ++open) {
+    Mon mon("TrimCollinear", open ? "open" : "closed");
     Path64 out = TrimCollinear(E, open != 0);
     Path64 out2 = TrimCollinear(out, open != 0);
     Path64 o2; bool ok2 = unemb_path(emb, out2, o2);
@@ -87,6 +106,7 @@ static void do_path(std::ostream& os, long long id, const std::string& fam, cons
   for (size_t k = 0; k < eps.size(); ++k) {
     const double e = (double)eps[k].n / (double)eps[k].d * m;
     for (int closed = 1; closed >= 0; --closed) {
+      Mon mon("SimplifyPath", std::to_string(eps[k].n) + "/" + std::to_string(eps[k].d) + (closed ? " closed" : " open"));
       Path64 out = SimplifyPath(E, e, closed != 0);
       Vars vs;
       if (!lite) {
@@ -97,6 +117,7 @@ static void do_path(std::ostream& os, long long id, const std::string& fam, cons
       R.path_call(ev, out, 200 + k * 2 + closed, vs);
     }
     {
+      Mon mon("RamerDouglasPeucker", std::to_string(eps[k].n) + "/" + std::to_string(eps[k].d));
       Path64 out = RamerDouglasPeucker(E, e);
       Vars vs;
       if (!lite) {
@@ -109,6 +130,7 @@ static void do_path(std::ostream& os, long long id, const std::string& fam, cons
   }
   // ---- StripDuplicates / StripNearEqual
   for (int closed = 1; closed >= 0; --closed) {
+    Mon mon("StripDuplicates/StripNearEqual", closed ? "closed" : "open");
     Path64 out = E; StripDuplicates(out, closed != 0);
     Vars vs;
     if (!lite) { Paths64 ps{E}; StripDuplicates(ps, closed != 0); vs.push_back({"Ps", {ps.size() == 1, ps.size() == 1 ? ps[0] : Path64()}});
@@ -127,7 +149,7 @@ static void do_path(std::ostream& os, long long id, const std::string& fam, cons
   }
   // ---- TranslatePath by a small lattice vector derived from the path and the seed
   {
-    Rng r(R.hp ^ seed); const int64_t dx = r.range(-5, 5), dy = r.range(-5, 5);
+    Mon mon("TranslatePath/GetBounds/Length", ""); Rng r(R.hp ^ seed); const int64_t dx = r.range(-5, 5), dy = r.range(-5, 5);
     Path64 out = TranslatePath(E, dx * emb.m, dy * emb.m);
     Vars vs;
     if (!lite) { Paths64 ps = TranslatePaths(Paths64{E}, dx * emb.m, dy * emb.m); vs.push_back({"Ps", {ps.size() == 1, ps.size() == 1 ? ps[0] : Path64()}});
@@ -151,7 +173,7 @@ static void do_path(std::ostream& os, long long id, const std::string& fam, cons
   // ---- Length (only where the lattice unit is the library's unit)
   if (emb.m == 1) {
     long long maxd2 = 0; for (size_t i = 0; i < lat.size(); ++i) { auto& a = lat[i]; auto& b = lat[(i + 1) % lat.size()]; maxd2 = std::max<long long>(maxd2, (a.x - b.x) * (a.x - b.x) + (a.y - b.y) * (a.y - b.y)); }
-    long long s = maxd2 <= 2000 ? 1000 : maxd2 <= 200000 ? 100 : 0;
+    long long s = maxd2 <= 20 ? 10000 : maxd2 <= 2000 ? 1000 : maxd2 <= 200000 ? 100 : 0;   // s * s * maxd2 < 2^31 (TLC integers)
     if (s) for (int closed = 1; closed >= 0; --closed) {
       auto rec = [&](double L, const char* v) { Ev ev = call("LEN"); ev.ks("v", v).kn("c", closed).kn("s", s).kn("lo", (long long)std::floor(L * s)).kn("hi", (long long)std::ceil(L * s)); R.calls.push_back(ev.str()); ++st.calls; };
       rec(Length(E, closed != 0), "64");
@@ -212,6 +234,7 @@ static std::vector<Path64> degen_shapes() {
 
 // vh c20 --fam in|rand|degen --in file --skip k --stride s --n N --seed S --emb 0,1 --eps 0/1,1/2,1/1,2/1 --mds 1/1,2/1,9/2 --lite 0|1 --out file --nt file
 static int cmd_c20(const Args& a) {
+  install_crash_handler();
   const uint64_t seed = (uint64_t)argi(a, "seed", 1); Rng r(seed);
   std::string fam = args(a, "fam", "rand");
   std::vector<long long> embs = argl(a, "emb", "0");
